@@ -41,10 +41,18 @@ def bound_text(tier):
                                                             rbgen.knobs(tier)["cap"]))
 
 
+_V_OFF = [None]
+
+
 def setup():
     env.setup()
     from checks import c16_frontends as c16
-    c16.setup()
+    try:
+        c16.setup()
+    except env.NotDecided as e:
+        # part V borrows the per-rule universes of C16, which are built with a private matcher of annet; without it part V
+        # is not decided - the state search of this check does not depend on it
+        _V_OFF[0] = str(e)
 
 
 def blocks(tier, seed):
@@ -296,6 +304,10 @@ def judge_v(label, hw, fmt, u, old, new, report):
 
 def run_v(block, ctx):
     from checks import c16_frontends as c16
+    if _V_OFF[0] is not None:
+        ctx.capped = True
+        ctx.notes.append("part V not decided - %s" % _V_OFF[0])
+        return
     label = block["label"]
     hw = c16.hw_of(label)
     fmt = c16.formatter_of(hw)
